@@ -6,11 +6,11 @@
 set -u
 SD="$(cd "$1" && pwd)"; CRATE="$2"; DEST="$3"; TEST="$4"
 WT=/tmp/vseed-$(basename "$SD")
-export CARGO_NET_OFFLINE=true CARGO_TARGET_DIR=$WT/target
+export CARGO_NET_OFFLINE=true CARGO_TARGET_DIR=${VSEED_TARGET:-$WT/target}
 git -C /repo worktree remove --force "$WT" 2>/dev/null; rm -rf "$WT"
 git -C /repo worktree add -q --detach "$WT" HEAD || exit 2
 LOG="$SD/verification.log"; : > "$LOG"
-cp "$SD"/demo/*.rs "$WT/$DEST/" 
+mkdir -p "$WT/$DEST"; cp "$SD"/demo/*.rs "$WT/$DEST/" 
 cd "$WT" || exit 2
 echo "## repo HEAD $(git rev-parse --short HEAD)" >> "$LOG"
 echo "## demonstration WITHOUT the change" >> "$LOG"
